@@ -13,6 +13,7 @@ Obs == [store |-> [u \in Users |-> [k \in Keys |-> Len(store'[<<u, k>>])]], keys
 SimNext ==
     \/ \E g \in Palette : AddGrant(g) /\ hist' = Append(hist, [op |-> "add", g |-> g, obs |-> Obs])
     \/ Tick /\ hist' = Append(hist, [op |-> "tick", now |-> now', obs |-> Obs])
+    \/ Toggle /\ hist' = Append(hist, [op |-> "toggle", enabled |-> enabled', obs |-> Obs])
     \/ \E u \in Users, k \in Keys : Connect(u, k) /\ hist' = Append(hist, [op |-> "connect", user |-> u, key |-> k, admitted |-> Admits(u, k), sid |-> Len(sess'), obs |-> Obs])
     \/ \E s \in 1..MaxSess, kd \in Kinds : Request(s, kd) /\ hist' = Append(hist, [op |-> "request", sid |-> s, kind |-> kd, started |-> started' # started, left |-> Len(sess'[s].grants), obs |-> Obs])
 MCSpec == SimInit /\ [][Next /\ UNCHANGED hist]_<<vars, hist>>
